@@ -43,7 +43,7 @@ type mutant struct {
 	Secs   float64  `json:"secs"`
 }
 
-var mutNoise = regexp.MustCompile(`(?i)(logger|liblog|\.Logger\(|\.Debug\(|\.Info\(|\.Warn\(|\.Error\(|Errorf|\.Wrap|sdkerrors|\.Format\(|\.JoinErrorf|EmitTypedEvent|EmitEvents?\(|NewEvent|NewAttribute|telemetry|\.Publish\(|EmitEvent|WithFields|WithError|WithValidator|WithComponent|fmt\.Printf|Println|errors\.New)`)
+var mutNoise = regexp.MustCompile(`(?i)(logger|liblog|\.Logger$|\.(Debug|Info|Warn|Error|Format|Publish|Wrap|Wrapf|WrapS|JoinErrorf)$|Errorf|sdkerrors|EmitTypedEvent|EmitEvents?$|NewEvent|NewAttribute|telemetry|EmitEvent|WithFields|WithError|WithValidator|WithComponent|fmt\.Printf|Println|errors\.New)`)
 
 func CmdMutSweep(args []string) int {
 	fs := flag.NewFlagSet("mutsweep", flag.ExitOnError)
